@@ -1,6 +1,7 @@
 """C15 - [Variables] substitution equals textual substitution and changes nothing else (DESIGN.md section 4, C15)."""
 import copy
 import random
+import io
 import re
 
 import emit
@@ -250,6 +251,36 @@ def run_case(case, ctx):
       r_subst[0], str(r_subst[1])[:200] if r_subst[0] != "ok" else "%d bytes" % len(r_subst[1]), route),
       what="templated_differs", exc=r_templ[2] if r_templ[0] == "internal" else "-", func=r_templ[3] if r_templ[0] == "internal" else "-")
     return
+  if m["type"] != "pair" and case.get("emptied") is None and case.get("raw") is None:
+    # The same placeholder text in two sections is resolved for each section on its own: what an entry expands to must not
+    # depend on which section was read first.  (No claim is made here about WHICH definition '${NAME}' names when the
+    # referencing section has a key NAME of its own - only that reading order does not change it.)
+    emb = [x for x in items if x[0] == "EAM-Embed"]
+    den = [x for x in items if x[0] == "EAM-Density"]
+    if emb and den and len(emb[0][1]) >= 2 and len(den[0][1]) >= 2 and "->" not in den[0][1][0][0]:
+      common = [k for k, _ in emb[0][1] if k in dict(den[0][1])]
+      if len(common) >= 2:
+        src, dst = common[0], common[1]
+        its2 = [(s_, [(k, ("${%s}" % src if (s_ in ("EAM-Embed", "EAM-Density") and k == dst) else v)) for k, v in its_]) for s_, its_ in items]
+        t2 = emit.items_text(its2)
+        from atsim.potentials.config import ConfigParser as CP
+        def read(order):
+          cp = CP(io.StringIO(t2))
+          out = {}
+          for attr in order:
+            try:
+              out[attr] = repr(getattr(cp, attr))
+            except Exception as e:
+              out[attr] = "ERR:%s" % type(e).__name__
+          return out
+        a = read(["eam_embed", "eam_density"])
+        b = read(["eam_density", "eam_embed"])
+        ctx.count("reading_order_pairs")
+        ctx.cls("same_placeholder_text_in_two_sections")
+        if a != b:
+          ctx.violation("resolution_depends_on_reading_order", "entry '%s : ${%s}' in [EAM-Embed] and [EAM-Density]: read embed-first %s / density-first %s" % (
+            dst, src, {k: v[:80] for k, v in a.items()}, {k: v[:80] for k, v in b.items()}), what="resolution_depends_on_reading_order")
+          return
   if case.get("emptied") is not None:
     # a section whose entries are all commented out (the header remains) next to variables NAMED LIKE those entries:
     # defining variables that nothing references must not stand in for the missing entries
